@@ -549,7 +549,7 @@ def collection_to_tbl(
             string that uniquely labels the submitter lab. If not set, will be a random string.
         random_seed: A seed value for random string generation. Useful for reproducible runs of this function.
     """
-    if random_seed:
+    if random_seed is not None:
         random.seed(random_seed)
 
     if not locus_tag_prefix:
